@@ -1,0 +1,307 @@
+//! Verification hooks
+//!
+//! This module only exists when the crate is built with the `verif-hooks` feature, which is off by default.
+//! It exposes observations of otherwise private state for an external conformance harness:
+//! - a thread-local log of the values drawn by `random` and of `resetRandom` statements,
+//!   together with a thread-local override of the seed used by new iterators,
+//! - JSON dumps of the private parts of [ParsedTestCase] and [TestCase],
+//! - the token stream the lexer produces for a piece of text.
+//!
+//! Nothing in here changes the behaviour of the crate.
+#![allow(missing_docs)]
+
+use std::cell::{Cell, RefCell};
+use std::fmt::Write;
+
+use crate::{
+    expr::Expr,
+    lexer::{HeaderTokenKind, TokenKind},
+    stmt::{DataEntry, Stmt},
+    EntryIndex, InputValue, ParsedTestCase, Signal, SignalType, TestCase,
+};
+
+/// One event of the random number generator of an iterator
+#[derive(Debug, Clone, Copy, PartialEq, Eq)]
+pub enum RngEvent {
+    /// `random(bound)` was evaluated and gave `value`
+    Draw { bound: i64, value: i64 },
+    /// A `resetRandom` statement was executed
+    Reset,
+}
+
+thread_local! {
+    static RNG_LOG: RefCell<Vec<RngEvent>> = const { RefCell::new(Vec::new()) };
+    static SEED_OVERRIDE: Cell<Option<u64>> = const { Cell::new(None) };
+}
+
+/// Return and clear the events logged on this thread since the last call
+pub fn take_rng_log() -> Vec<RngEvent> {
+    RNG_LOG.with(|log| std::mem::take(&mut *log.borrow_mut()))
+}
+
+/// Make every iterator subsequently constructed on this thread use `seed` instead of an OS provided one
+pub fn set_seed_override(seed: Option<u64>) {
+    SEED_OVERRIDE.with(|s| s.set(seed));
+}
+
+pub(crate) fn seed_override() -> Option<u64> {
+    SEED_OVERRIDE.with(|s| s.get())
+}
+
+pub(crate) fn log_draw(bound: i64, value: i64) {
+    RNG_LOG.with(|log| log.borrow_mut().push(RngEvent::Draw { bound, value }));
+}
+
+pub(crate) fn log_reset() {
+    RNG_LOG.with(|log| log.borrow_mut().push(RngEvent::Reset));
+}
+
+fn json_str(out: &mut String, s: &str) {
+    out.push('"');
+    for c in s.chars() {
+        match c {
+            '"' => out.push_str("\\\""),
+            '\\' => out.push_str("\\\\"),
+            c if (c as u32) < 0x20 => {
+                let _ = write!(out, "\\u{:04x}", c as u32);
+            }
+            c => out.push(c),
+        }
+    }
+    out.push('"');
+}
+
+fn json_list<T>(out: &mut String, items: &[T], mut f: impl FnMut(&mut String, &T)) {
+    out.push('[');
+    for (i, item) in items.iter().enumerate() {
+        if i > 0 {
+            out.push(',');
+        }
+        f(out, item);
+    }
+    out.push(']');
+}
+
+fn json_expr(out: &mut String, expr: &Expr) {
+    match expr {
+        Expr::Number(n) => {
+            let _ = write!(out, "{{\"k\":\"num\",\"v\":{n}}}");
+        }
+        Expr::Variable(name) => {
+            out.push_str("{\"k\":\"id\",\"name\":");
+            json_str(out, name);
+            out.push('}');
+        }
+        Expr::BinOp { op, left, right } => {
+            let _ = write!(out, "{{\"k\":\"bin\",\"op\":\"{op}\",\"l\":");
+            json_expr(out, left);
+            out.push_str(",\"r\":");
+            json_expr(out, right);
+            out.push('}');
+        }
+        Expr::UnaryOp { op, expr } => {
+            let _ = write!(out, "{{\"k\":\"un\",\"op\":\"{op}\",\"e\":");
+            json_expr(out, expr);
+            out.push('}');
+        }
+        Expr::Func { name, args } => {
+            out.push_str("{\"k\":\"fn\",\"name\":");
+            json_str(out, name);
+            out.push_str(",\"args\":");
+            json_list(out, args, json_expr);
+            out.push('}');
+        }
+    }
+}
+
+fn json_entry(out: &mut String, entry: &DataEntry) {
+    match entry {
+        DataEntry::Number(n) => {
+            let _ = write!(out, "{{\"k\":\"num\",\"v\":{n}}}");
+        }
+        DataEntry::Expr(expr) => {
+            out.push_str("{\"k\":\"expr\",\"e\":");
+            json_expr(out, expr);
+            out.push('}');
+        }
+        DataEntry::Bits { number, expr } => {
+            let _ = write!(out, "{{\"k\":\"bits\",\"n\":{number},\"e\":");
+            json_expr(out, expr);
+            out.push('}');
+        }
+        DataEntry::X => out.push_str("{\"k\":\"X\"}"),
+        DataEntry::Z => out.push_str("{\"k\":\"Z\"}"),
+        DataEntry::C => out.push_str("{\"k\":\"C\"}"),
+    }
+}
+
+fn json_stmt(out: &mut String, stmt: &Stmt) {
+    match stmt {
+        Stmt::Let { name, expr } => {
+            out.push_str("{\"k\":\"let\",\"name\":");
+            json_str(out, name);
+            out.push_str(",\"e\":");
+            json_expr(out, expr);
+            out.push('}');
+        }
+        Stmt::DataRow { data, line } => {
+            let _ = write!(out, "{{\"k\":\"row\",\"line\":{line},\"entries\":");
+            json_list(out, data, json_entry);
+            out.push('}');
+        }
+        Stmt::Loop {
+            variable,
+            max,
+            inner,
+        } => {
+            out.push_str("{\"k\":\"loop\",\"var\":");
+            json_str(out, variable);
+            out.push_str(",\"max\":");
+            json_expr(out, max);
+            out.push_str(",\"body\":");
+            json_list(out, inner, json_stmt);
+            out.push('}');
+        }
+        Stmt::While { condition, inner } => {
+            out.push_str("{\"k\":\"while\",\"cond\":");
+            json_expr(out, condition);
+            out.push_str(",\"body\":");
+            json_list(out, inner, json_stmt);
+            out.push('}');
+        }
+        Stmt::ResetRandom => out.push_str("{\"k\":\"reset\"}"),
+    }
+}
+
+fn json_input_value(out: &mut String, value: InputValue) {
+    match value {
+        InputValue::Value(n) => {
+            let _ = write!(out, "{n}");
+        }
+        InputValue::Z => out.push_str("\"Z\""),
+    }
+}
+
+fn json_signal(out: &mut String, signal: &Signal) {
+    out.push_str("{\"name\":");
+    json_str(out, &signal.name);
+    let _ = write!(out, ",\"bits\":{}", signal.bits);
+    match &signal.typ {
+        SignalType::Input { default } => {
+            out.push_str(",\"dir\":\"in\",\"def\":");
+            json_input_value(out, *default);
+        }
+        SignalType::Output => out.push_str(",\"dir\":\"out\""),
+        SignalType::Bidirectional { default } => {
+            out.push_str(",\"dir\":\"bidir\",\"def\":");
+            json_input_value(out, *default);
+        }
+        SignalType::Virtual { expr } => {
+            out.push_str(",\"dir\":\"virt\",\"vexpr\":");
+            json_expr(out, &expr.expr);
+        }
+    }
+    out.push('}');
+}
+
+fn json_entry_index(out: &mut String, index: &EntryIndex) {
+    match index {
+        EntryIndex::Entry {
+            entry_index,
+            signal_index,
+        } => {
+            let _ = write!(out, "{{\"entry\":{entry_index},\"signal\":{signal_index}}}");
+        }
+        EntryIndex::Default { signal_index } => {
+            let _ = write!(out, "{{\"entry\":-1,\"signal\":{signal_index}}}");
+        }
+    }
+}
+
+impl ParsedTestCase {
+    /// JSON description of everything the parser extracted from the source
+    pub fn verif_dump(&self) -> String {
+        let mut out = String::new();
+        out.push_str("{\"stmts\":");
+        json_list(&mut out, &self.stmts, json_stmt);
+        out.push_str(",\"signals\":");
+        json_list(&mut out, &self.signals, |out, s| json_str(out, s));
+        out.push_str(",\"virtuals\":");
+        json_list(&mut out, &self.verif_virtual_signals(), |out, (name, expr)| {
+            out.push_str("{\"name\":");
+            json_str(out, name);
+            out.push_str(",\"e\":");
+            json_expr(out, expr);
+            out.push('}');
+        });
+        out.push_str(",\"expected_inputs\":");
+        json_list(&mut out, &self.verif_expected_inputs(), |out, s| {
+            json_str(out, s)
+        });
+        out.push_str(",\"read_outputs\":");
+        json_list(&mut out, &self.verif_read_outputs(), |out, s| {
+            json_str(out, s)
+        });
+        out.push('}');
+        out
+    }
+}
+
+impl TestCase {
+    /// JSON description of the complete test case, including its private parts
+    pub fn verif_dump(&self) -> String {
+        let mut out = String::new();
+        out.push_str("{\"stmts\":");
+        json_list(&mut out, &self.stmts, json_stmt);
+        out.push_str(",\"signals\":");
+        json_list(&mut out, &self.signals, json_signal);
+        out.push_str(",\"input_indices\":");
+        json_list(&mut out, &self.input_indices, json_entry_index);
+        out.push_str(",\"expected_indices\":");
+        json_list(&mut out, &self.expected_indices, json_entry_index);
+        out.push_str(",\"read_outputs\":");
+        json_list(&mut out, &self.read_outputs, |out, i| {
+            let _ = write!(out, "{i}");
+        });
+        out.push('}');
+        out
+    }
+}
+
+/// The tokens the lexer produces for `input` (after the header line has been consumed when `skip_header` is set),
+/// each with the debug name of its kind and its byte span.
+///
+/// The header is consumed exactly as the parser does it: header tokens are read until the first
+/// end of line which follows at least one signal name. The returned list always ends with an `Eof` token
+/// unless the header itself is incomplete, in which case `None` is returned.
+pub fn tokens(input: &str, skip_header: bool) -> Option<Vec<(String, usize, usize)>> {
+    use logos::Logos;
+    let mut result = vec![];
+    let iter = if skip_header {
+        let mut lexer = HeaderTokenKind::lexer(input);
+        let mut seen_name = false;
+        loop {
+            match lexer.next() {
+                Some(Ok(HeaderTokenKind::SignalName)) => {
+                    seen_name = true;
+                    result.push(("SignalName".to_string(), lexer.span().start, lexer.span().end));
+                }
+                Some(Ok(HeaderTokenKind::Eol)) => {
+                    result.push(("HeaderEol".to_string(), lexer.span().start, lexer.span().end));
+                    if seen_name {
+                        break;
+                    }
+                }
+                Some(_) => {}
+                None => return None,
+            }
+        }
+        crate::lexer::TokenIter::from(lexer)
+    } else {
+        crate::lexer::TokenIter::from(TokenKind::lexer(input))
+    };
+    for token in iter {
+        result.push((format!("{:?}", token.kind), token.span.start, token.span.end));
+    }
+    Some(result)
+}
